@@ -11,8 +11,8 @@
 //!     hex, `|`-separated.  Feeds chunk by chunk, re-feeding after every suspension.  Output:
 //!     `I:<label hex>:<n>;…;T=<tree dump>;E=<#parse errors>` where n = number of HTML `meta` elements in
 //!     the tree at that moment whose charset attribute equals the label or whose content attribute
-//!     contains it.  Then ` ## ` and the same for a run through `Parser::one` (driver ignoring
-//!     indicators): `T=<tree dump>;E=<n>`.
+//!     contains it.  Then ` ## ` and the same chunks through `Parser::process`/`finish` (the driver,
+//!     which ignores indicators): `T=<tree dump>;E=<n>`.
 use crate::proto::*;
 use html5ever::buffer_queue::BufferQueue;
 use html5ever::tendril::{StrTendril, TendrilSink};
@@ -204,8 +204,12 @@ fn run_doc(fields: &[&str]) -> String {
         chunks.push(s);
     }
     let (events, dom) = run_manual(&ctx, &chunks);
-    let whole: String = chunks.concat();
-    let dom2 = new_parser(&ctx).one(StrTendril::from_slice(&whole));
+    // the same chunks through the driver (`Parser::process` loops on `feed` until Done, ignoring indicators)
+    let mut p2 = new_parser(&ctx);
+    for c in &chunks {
+        p2.process(StrTendril::from_slice(c));
+    }
+    let dom2 = p2.finish();
     let mut parts = events;
     parts.push(format!("T={}", dump_dom(&dom)));
     parts.push(format!("E={}", dom.errors.borrow().len()));
